@@ -117,6 +117,7 @@ bool assignBitset(DynamicBitset& a, const std::vector<bool>& bv, bool construct)
 {
    switch (bv.size())
    {
+   case 0: fromBitset<0>(a, bv, construct); return true;
    case 1: fromBitset<1>(a, bv, construct); return true;
    case 2: fromBitset<2>(a, bv, construct); return true;
    case 3: fromBitset<3>(a, bv, construct); return true;
